@@ -84,15 +84,7 @@ func c05Inputs() []c05Input {
 	return out
 }
 
-var c05Cmds = [][]string{
-	{"reg"}, {"reg", "--internal-template-name", "left-aligned"}, {"reg", "--use-old-reg-reporter"},
-	{"reg", "-s", "cal"}, {"reg", "-s", "cal", "-g"}, {"reg", "-f", "r"}, {"reg", "-s", "cal", "--csv"}, {"reg", "--totals-only"},
-	{"bal"}, {"bal", "-c"}, {"bal", "--collapse-last"}, {"bal", "-s", "cal"},
-	{"csv", "log"}, {"csv", "database"}, {"csv", "database-resolved"},
-	{"report", "element-total", "cal"}, {"report", "element-total", "--desc", "cal"}, {"report", "unresolved"},
-	{"report", "quantity"}, {"report", "quantity", "--desc"}, {"report", "totals"},
-	{"stats"}, {"summary", "2021/01/24"}, {"print"}, {"lint", "log.yaml"}, {"lint", "food.yaml"},
-}
+var c05Cmds = shapeArgs(func(s cmdShape) bool { return true })
 
 func checkC05(w *Worker) {
 	w.appInit()
